@@ -1,0 +1,33 @@
+//go:build verif
+
+package runner
+
+import (
+	"lunar/engine/actions"
+	"lunar/engine/config"
+	lunarMessages "lunar/engine/messages"
+	"lunar/engine/services"
+	sharedConfig "lunar/shared-model/config"
+)
+
+// VerifRunOnRequest exposes runOnRequest (the fold over the remedies' request
+// actions) to the verification harness.
+func VerifRunOnRequest(
+	args lunarMessages.OnRequest,
+	remedies []config.ScopedRemedy,
+	plugins *services.RemedyPlugins,
+	accounts map[sharedConfig.AccountID]sharedConfig.Account,
+) (actions.ReqLunarAction, error) {
+	res, err := runOnRequest(args, remedies, plugins, accounts)
+	return res.action, err
+}
+
+// VerifRunOnResponse exposes runOnResponse to the verification harness.
+func VerifRunOnResponse(
+	args lunarMessages.OnResponse,
+	remedies []config.ScopedRemedy,
+	plugins *services.RemedyPlugins,
+) (actions.RespLunarAction, error) {
+	res, err := runOnResponse(args, remedies, plugins)
+	return res.action, err
+}
